@@ -28,26 +28,33 @@ var sweepExtra = []string{
 func (e *Engine) sweepFunctions() []*ssa.Function {
 	var out []*ssa.Function
 	for name, fn := range e.funcs {
-		if fn.Blocks == nil || !isInRepo(fn) || fn.Parent() != nil {
+		if fn.Blocks == nil || !isInRepo(fn) {
 			continue
 		}
-		if strings.HasPrefix(name, "protocol.verif") || strings.Contains(name, "$") {
+		// function literals are swept with the function that contains them (reply writers are closures)
+		top := fn
+		for top.Parent() != nil {
+			top = top.Parent()
+		}
+		topName := fnName(top)
+		if strings.HasPrefix(topName, "protocol.verif") {
 			continue
 		}
 		sel := false
-		if fn.Pkg != nil && fn.Pkg.Pkg.Name() == "protocol" && !strings.Contains(fn.Pkg.Pkg.Path(), "protobuf") {
+		if top.Pkg != nil && top.Pkg.Pkg.Name() == "protocol" && !strings.Contains(top.Pkg.Pkg.Path(), "protobuf") {
 			sel = true
 		}
 		for _, r := range sweepReceivers {
-			if strings.Contains(name, r) {
+			if strings.Contains(topName, r) {
 				sel = true
 			}
 		}
 		for _, x := range sweepExtra {
-			if name == x {
+			if topName == x {
 				sel = true
 			}
 		}
+		_ = name
 		if sel {
 			out = append(out, fn)
 		}
